@@ -2,7 +2,8 @@
    Restates lemmas about [line_search] of the driver model (coq/Model/Driver.v, hand-written from linesearch.py). *)
 From Coq Require Import List ZArith Bool String Lia Floats.PrimFloat.
 From LBFGSB Require Import Base.Res Base.Hoare Base.FloatOrd Model.SF Model.FloatVec Model.Driver Generated.Consts
-  Proofs.SFProofs Proofs.SFPoints Proofs.DriverBox Proofs.DriverReport Proofs.DriverValues Proofs.DriverLineSearch.
+  Proofs.SFProofs Proofs.SFPoints Proofs.DriverBox Proofs.DriverReport Proofs.DriverValues Proofs.DriverLineSearch
+  Model.Dcsrch Model.DriverDcs Proofs.DcsrchProofs Proofs.DriverDcsrch.
 Import ListNotations.
 Open Scope Z_scope.
 
@@ -41,13 +42,23 @@ Section C11.
     intros Hu HI a t1 tr H. destruct (val_line_search U K c Hu xk f0 g0 d nit cap t HI _ _ H) as (_ & _ & _ & _ & Hs). exact (Hs a eq_refl).
   Qed.
 
-  (* 4. under the range contract of the line-search routine (0 <= stp <= stpmax), the step handed back lies in [0, stpmax]
-     where stpmax is 1 at iteration 0 and the maximum feasible step (capped by max_steplength) afterwards *)
-  Theorem C11_step_in_range : dcs_in_range K ->
+  (* 4. with the line-search routine instantiated by the bit-exact model of SciPy's DCSRCH (Model/Dcsrch.v; ANY behaviour sq of
+     the C library's pow(x, 2.0) used by dcstep), the step handed back is NaN or lies in [0, stpmax], where stpmax is 1 at
+     iteration 0 and the maximum feasible step (capped by max_steplength) afterwards - including when the first trial step
+     (1, or 1/|d| at iteration 0 of an unboxed problem) lies outside that range: the START checks then refuse it and no step is
+     handed back.  The NaN alternative cannot be dropped: C11_dcsrch_can_return_nan. *)
+  Theorem C11_step_in_range : forall sq : float -> float, (forall q h, dcs K q h = dcs_model sq q h) ->
+    leb 0 (stpmax_of c xk d nit) = true ->
     forall a t1 tr, line_search U K c xk f0 g0 d nit cap t = (Ok (Some a, t1), tr) ->
-    leb 0 a = true /\ leb a (stpmax_of c xk d nit) = true.
-  Proof. intros Hc a t1 tr H. exact (line_search_range U K c Hc xk f0 g0 d nit cap t a t1 tr H). Qed.
+    is_nan a = true \/ (leb 0 a = true /\ leb a (stpmax_of c xk d nit) = true).
+  Proof. intros sq HK Hm a t1 tr H. exact (line_search_range_dcsrch U K c sq HK xk f0 g0 d nit cap t a t1 tr Hm H). Qed.
 End C11.
+
+(* the routine can propose a NaN step from finite values and steps in range (3*(fx-fp) overflows inside dcstep) *)
+Theorem C11_dcsrch_can_return_nan :
+  run_dcsrch sq_mul (0x1.0624dd2f1a9fcp-10, 0x1.ccccccccccccdp-1, 0x1.999999999999ap-4, 1)%float
+             [(1, 0, -1); (1, 0x1.1ccf385ebc8ap+1023, 0)]%float = (nan, Dcsrch.TFG).
+Proof. exact nan_step_example. Qed.
 
 (* the first-step rule, the iteration-0 cap and the arguments handed to DCSRCH are those of the source *)
 Theorem C11_source_pins :
@@ -60,3 +71,4 @@ Print Assumptions C11_points_in_box.
 Print Assumptions C11_within_budget.
 Print Assumptions C11_strictly_downhill.
 Print Assumptions C11_step_in_range.
+Print Assumptions C11_dcsrch_can_return_nan.
